@@ -924,3 +924,53 @@ Proof.
   - intros a n r' Ha Hs. destruct (released_is_free _ _ _ _ Ha Hs) as (H1 & _ & H3).
     split; assumption.
 Qed.
+
+(* ---------------------------------------------------------------------- *)
+(* the order inside finish(): the mailbox is closed, drained and disconnected
+   BEFORE post_stop starts: while post_stop has not finished, every accepted
+   message already had its reply port used or dropped (late pushes excepted),
+   so a caller of a queued call has its error and post_stop may wait for it *)
+Theorem queued_calls_released_before_post_stop c es s x :
+  steps (init c) es = Some s -> pc s = PPostStop x ->
+  rx s = false /\ closed s = true /\ queue s = late s /\
+  (exists t a, tr s = t ++ [LPreStop a] /\ started_shape t (handled s)) /\
+  forall m, In m (accepted s) -> In m (released s) \/ In m (late s).
+Proof.
+  intros H Hp. destruct (reachable_inv _ _ _ H) as [A B C D K L J1 J2].
+  rewrite Hp in K. cbn in K.
+  split; [exact K|]. split; [unfold closed; rewrite K; apply orb_true_r|].
+  assert (Hq : queue s = late s) by (apply L; rewrite Hp; reflexivity).
+  split; [exact Hq|]. split.
+  - unfold shape in D. rewrite Hp in D. exact D.
+  - intros m Hm. rewrite Hp in C. rewrite C. rewrite A in Hm. rewrite <- Hq.
+    apply in_app_or in Hm. destruct Hm as [Hm|Hm]; [left; apply in_or_app; left; exact Hm|].
+    apply in_app_or in Hm. destruct Hm as [Hm|Hm]; [left; apply in_or_app; right; exact Hm|].
+    right. exact Hm.
+Qed.
+
+(* post_stop can only run from that state, and pre_stop only before the drain *)
+Theorem post_stop_after_drop s ok s' :
+  step s (EPostStop ok) = Some s' -> exists x, pc s = PPostStop x.
+Proof.
+  intros H. destruct s as [cp qu sl st rxx p pa sw ac ha dr re fi ov la t].
+  unfold step, step_gen in H. cbn in H. destruct p; try discriminate H. eexists. reflexivity.
+Qed.
+
+(* ---------------------------------------------------------------------- *)
+(* the reservation is what excludes a second spawn of the same name: while an
+   attempt holds the name — pre_start still running, i.e. before activation,
+   or later — every other reservation of it is refused, and the refusal leaves
+   the registry (the holder's registration) untouched *)
+Theorem reserved_excludes es r a n b :
+  rsteps rinit es = Some r -> holds r a n ->
+  rstep r (RReserve b n true) = None /\
+  (forall r', rstep r (RReserve b n false) = Some r' -> r' = r /\ holds r' a n).
+Proof.
+  intros H Ha. destruct (rreachable_inv _ _ H) as [U Hh E].
+  assert (Ht : exists v, tfind n (table r) = Some v).
+  { destruct (Hh _ _ Ha) as [T|T]; rewrite T; eexists; reflexivity. }
+  destruct Ht as [v Ht]. split.
+  - cbn [rstep]. destruct (kfind b (tokens r)); [reflexivity|]. rewrite Ht. reflexivity.
+  - intros r' Hs. cbn [rstep] in Hs. destruct (kfind b (tokens r)); [discriminate|].
+    rewrite Ht in Hs. injection Hs as <-. split; [reflexivity|exact Ha].
+Qed.
